@@ -10,7 +10,7 @@ import (
 )
 
 func init() {
-	Register(&Profile{Name: "containment", Prop: "C15", Weight: 10, Quick: 1500, Thorough: 40000, Sweep: c15SweepCount, Fn: containment})
+	Register(&Profile{Name: "containment", Prop: "C15", Weight: 10, Quick: 30000, Thorough: 800000, Sweep: c15SweepCount, Fn: containment})
 	SetMeta("C15", &Meta{
 		Level: "exploration",
 		Rule: "otherwise valid, fully repairable archives written by the reference writer (PAR2) / reference PAR1 builder whose declared files are missing, with declared names from a traversal corpus (absolute, .., a/../../x, ./.., ., empty, NUL-terminated-early, trailing slash, backslashes, very long, names that Clean to a parent) x every position in sets of 1 and 3 files (deterministic sweep), plus seeded archives with several hostile names composed from path components; Verify and Repair run on a simulated disk surrounded by a canary tree; also PAR2 Create with inputs outside the index file's tree under several spellings. Oracle: no write call whose resolved path lies outside the index directory's tree (PAR1: outside that directory), canary tree byte-identical, no panic, Create refuses outside inputs. Non-trivial: the archive parsed up to the hostile entry (gopar either rejected it with an error or attempted writes); distinct by (format, name class, position, set size, outcome).",
